@@ -79,7 +79,7 @@ class World:
 
 def execute(sc, ctx):
     w = World(ctx)
-    model = Model()
+    model = Model(seed=20260927)
     sm = model.systems
     ref = RefSched()
     pool = sc["pool"]
